@@ -7,12 +7,34 @@ leaves and conditions carry their ids), on seeded random skeletons up to 60
 nodes and on the regression corpus.  Oracle: the clauses of the property
 (entry, reachability, edge mirroring, branch placement and targets, successor
 counts, path-based dominance, syntactic loop nesting, every statement exactly
-once) evaluated by lifteng.wellformed_failures on the implementation's blocks."""
+once; after into_ssa also: phi statements first, branch last) evaluated by
+lifteng.wellformed_failures on the implementation's blocks.
+
+Third audit.  (1) The phi statements stay in the block lists the harness prints
+(they used to be filtered out, so "phis first, branch last" after into_ssa was
+never looked at).  (2) Stage `templates and functions as the production code lifts
+them` (liftfull_engine.c12_stage): the same clauses on every definition of the
+programs of the liftfull engine - templates with signal / component declarations
+(also under control flow), `<==`, `<--`, `===`, assert, log, custom and parallel
+templates, functions - lifted by the production `impl TryLift for &TemplateData /
+&FunctionData` after the real desugarer, before and after into_ssa; a failure is a
+violation of C12 WITH the source as failing input.  (3) The hypothesis of
+C12_lift_never_panics is now Proofs.LiftTotalFlat.desugared_shape (the shape real
+desugared bodies have; `parser_shaped` is false for tuple / anonymous-component
+declarations); it is EVALUATED on every real desugared body of that stage by the
+extracted decision LiftFull.is_block && LiftFull.ast_init_flat
+(C12_desugared_shape_decided); an unmet hypothesis is a violation.  (4) The
+accessors `Cfg::len / is_empty / entry_block / get_basic_block`, `BasicBlock::in_loop
+/ len / is_empty` are read on every graph and compared with the block iterator."""
 import json
 import os
+import sys
 
 import common
 import lifteng
+
+sys.path.insert(0, os.path.dirname(os.path.abspath(__file__)))
+import liftfull_engine  # noqa: E402
 
 
 def corpus_cases(prop):
@@ -25,6 +47,17 @@ def corpus_cases(prop):
                 c = lifteng.make_case(lifteng.from_jsonable(rec["body"]))
                 c["corpus"] = f
                 out.append(c)
+    return out
+
+
+def corpus_sources(prop):
+    """corpus/C12/*.circom: sources of past failures of the template stage."""
+    d = os.path.join(common.VERIF, "corpus", prop)
+    out = []
+    if os.path.isdir(d):
+        for f in sorted(os.listdir(d)):
+            if f.endswith(".circom"):
+                out.append(("corpus/" + f, open(os.path.join(d, f)).read()))
     return out
 
 
@@ -46,55 +79,116 @@ def gen_cases(ctx, quick_nodes, thorough_nodes, n_random_quick, n_random_thoroug
     return cases, n_exh, max_nodes, sizes
 
 
+def skeleton_failures(case, impl):
+    """(failing records of one skeleton case, how into_ssa went)"""
+    out = []
+    parts = lifteng.split_cfg_line(impl)
+    if parts is None:
+        return out, "not_reached(into_cfg failed)"
+    before, after, api = parts
+    how = "skipped" if after == "skipped" else "checked"
+    for which, text in (("into_cfg", before), ("into_ssa", after)):
+        if text == "skipped":
+            continue
+        if text in ("error", "panic"):
+            out.append({"input": case["src"], "body": lifteng.to_jsonable(case["body"]), "impl": which + " " + text,
+                        "spec": "the definition lifts"})
+            continue
+        bad = lifteng.wellformed_failures(lifteng.parse_blocks(text), case["depth"])
+        if bad:
+            out.append({"input": case["src"], "body": lifteng.to_jsonable(case["body"]),
+                        "impl": which + ": " + text, "spec": bad[:5]})
+    if api != "ok":
+        out.append({"input": case["src"], "body": lifteng.to_jsonable(case["body"]), "impl": "accessors: " + api,
+                    "spec": ["Cfg::len / entry_block / get_basic_block / BasicBlock::in_loop / len agree with the block iterator"]})
+    return out, how
+
+
 def run(ctx, proofs):
+    quick = ctx.tier == "quick"
     corpus = corpus_cases("C12")
     cases, n_exh, max_nodes, sizes = gen_cases(ctx, 7, 8, 3000, 30000, sample9=300000)
     cases = corpus + cases
     results = lifteng.run_cfg(common, cases)
     disagreements, failing = [], []
     shapes = set()
-    kinds = {"blocks>=2": 0, "with_loop": 0, "with_branch_pending_at_end": 0}
+    kinds = {"blocks>=2": 0, "with_loop": 0, "with_branch_pending_at_end": 0, "with_phi_after_ssa": 0}
     # second audit: `# ssa skipped` (the driver does not run into_ssa on deeply nested if/else, lifteng.SSA_MAX_ELSE)
     # is accepted by cfg_compare and by the clauses below without a word; it is counted here, per reason, and a run
     # in which more than half of the cases skip into_ssa is degenerate
     ssa = {"checked": 0, "skipped": 0, "not_reached(into_cfg failed)": 0}
+    unknown_ids = 0
     for case, impl, model in results:
         d = lifteng.cfg_compare(case, impl, model)
         if d is not None:
             disagreements.append(d)
-        if impl.startswith("cfg ") and " # ssa " in impl:
-            for which, text in zip(("into_cfg", "into_ssa"), impl[4:].split(" # ssa ", 1)):
-                if which == "into_ssa":
-                    ssa["skipped" if text == "skipped" else "checked"] += 1
-                if text == "skipped":
-                    continue
-                if text in ("error", "panic"):
-                    failing.append({"input": case["src"], "body": lifteng.to_jsonable(case["body"]),
-                                    "impl": which + " " + text,
-                                    "spec": "the definition lifts (Model.Lift.lift: %s)" % model[:200]})
-                    continue
-                bad = lifteng.wellformed_failures(lifteng.parse_blocks(text), case["depth"])
-                if bad:
-                    failing.append({"input": case["src"], "body": lifteng.to_jsonable(case["body"]),
-                                    "impl": which + ": " + text, "spec": bad[:5]})
-            before = impl[4:].split(" # ssa ", 1)[0]
-            if before.count("; ") >= 1:
-                if before not in shapes:
-                    shapes.add(before)
-                    kinds["blocks>=2"] += 1
-                    if " d1 " in before:
-                        kinds["with_loop"] += 1
-                    if "/-" in before:
-                        kinds["with_branch_pending_at_end"] += 1
-        else:
-            ssa["not_reached(into_cfg failed)"] += 1
+        bad, how = skeleton_failures(case, impl)
+        for b in bad:
+            if b["spec"] == "the definition lifts":
+                b["spec"] = "the definition lifts (Model.Lift.lift: %s)" % model[:200]
+        failing += bad
+        ssa[how] += 1
+        parts = lifteng.split_cfg_line(impl)
+        if parts is not None:
+            before, after, _ = parts
+            unknown_ids += before.count("L? ") + before.count("C?>")
+            if before.count("; ") >= 1 and before not in shapes:
+                shapes.add(before)
+                kinds["blocks>=2"] += 1
+                if " d1 " in before:
+                    kinds["with_loop"] += 1
+                if "/-" in before:
+                    kinds["with_branch_pending_at_end"] += 1
+                if "[P" in after:
+                    kinds["with_phi_after_ssa"] += 1
         if impl in ("cfg panic", "cfg error", "noparse"):
             # every generated skeleton follows the grammar and must lift
             failing.append({"input": case["src"], "body": lifteng.to_jsonable(case["body"]), "impl": impl,
                             "spec": "parses and lifts (model: %s)" % model[:200]})
+    # ---- templates and functions as the production code lifts them (third audit) ----
+    tstage = liftfull_engine.c12_stage(common, ctx.rng, quick, extra_programs=corpus_sources("C12"))
+    tfailing = [dict(f, liftfull_src=f["input"]) for f in tstage["failing"]]
+    # ---- the hypothesis of C12_lift_never_panics on real desugared bodies (third audit) ----
+    hyp = {"evaluated": 0, "desugared_shape": 0, "parser_shaped": 0, "not_evaluated": 0}
+    hyp_bad = []
+    rows, statuses = liftfull_engine.flags_for_sources(
+        common, [("fixed/" + k, s) for k, s in liftfull_engine.FIXED] + corpus_sources("C12")
+        + [(lab, s) for lab, s in liftfull_engine.gen_programs(ctx.rng, quick) if lab.startswith(("c18", "proggen", "targeted"))][:1500])
+    seen_defs = set()
+    for row in rows:
+        if row["def"] in seen_defs:
+            continue
+        seen_defs.add(row["def"])
+        ds, ps = row["flags"].get("DS"), row["flags"].get("PS")
+        if ds not in ("0", "1") or ps not in ("0", "1"):
+            hyp["not_evaluated"] += 1
+            hyp_bad.append({"input": row["src"], "definition": row["def"][:300], "impl": row["impl"][:200],
+                            "spec": "the model driver evaluates desugared_shape on this body (it printed: %s)" % row["model"][:120]})
+            continue
+        hyp["evaluated"] += 1
+        hyp["desugared_shape"] += ds == "1"
+        hyp["parser_shaped"] += ps == "1"
+        if ds != "1":
+            hyp_bad.append({"input": row["src"], "definition": row["def"][:300], "impl": row["impl"][:200],
+                            "spec": "the desugared body has Proofs.LiftTotalFlat.desugared_shape, the hypothesis of C12_lift_never_panics"})
+        elif row["impl"] == "(panic)":
+            hyp_bad.append({"input": row["src"], "definition": row["def"][:300], "impl": "into_cfg panics",
+                            "spec": "C12_lift_never_panics: a body of desugared_shape lifts without a panic"})
     for f in failing[:5]:
         ctx.violation("the control-flow graph of a definition is not well formed: %s" % (f["spec"],), f)
-    if not failing:
+    for f in tfailing[:5]:
+        ctx.violation("the control-flow graph of a definition (template / function lifted by the production code) is not well "
+                      "formed: %s" % (f["spec"],), f)
+    for f in hyp_bad[:3]:
+        ctx.violation("hypothesis / conclusion of C12_lift_never_panics fails on a real desugared body: %s" % f["spec"],
+                      dict(f, liftfull_src=f["input"]))
+    if hyp["evaluated"] == 0:
+        ctx.violation("degenerate run: desugared_shape, the hypothesis of C12_lift_never_panics, was evaluated on no real body",
+                      {"broken": "evaluation of the hypothesis desugared_shape", "statuses": dict(statuses)}, no_input=True)
+    if tstage["stats"].get("graphs_checked", 0) == 0:
+        ctx.violation("degenerate run: the template stage of C12 checked no graph",
+                      {"broken": "coverage of the check: template stage", "stats": tstage["stats"]}, no_input=True)
+    if not failing and not tfailing and not hyp_bad:
         if disagreements:
             d = disagreements[0]
             ctx.violation("correspondence Model.Lift.lift vs lifting.rs broken (%d cases; first: %s); every clause of the "
@@ -110,42 +204,80 @@ def run(ctx, proofs):
                           {"broken": "coverage of the check: `# ssa skipped` accepted on more than half of the cases", "ssa": ssa},
                           no_input=True)
     ctx.coverage.update({
-        "evaluations": len(results),
+        "evaluations": len(results) + tstage["stats"].get("graphs_checked", 0),
         "distinct_nontrivial": len(shapes),
         "rule": "every surface skeleton body (leaf, return, declaration with/without initialisers, block incl. empty, "
                 "while, if, if/else, for; bare and braced bodies as the grammar allows) with at most %d nodes, exhaustively "
                 "(%d programs)%s, plus %d seeded random bodies up to 60 nodes and nesting depth 12 and %d corpus programs; "
-                "both the block list after into_cfg and after into_ssa (phis dropped) are compared with the model and checked "
-                "against the property's clauses; distinct-nontrivial = distinct block lists with at least two blocks"
+                "both the block list after into_cfg and after into_ssa (phi statements INCLUDED: they must come first, the "
+                "branch last; for the comparison with the model, which has no phis, they are dropped) are compared with the "
+                "model and checked against the property's clauses; distinct-nontrivial = distinct block lists with at least "
+                "two blocks; plus the template stage (see `templates_and_functions`)"
                 % (max_nodes, n_exh, "" if ctx.tier == "quick" else " and 300000 sampled bodies with %d nodes" % (max_nodes + 1),
                    sum(sizes.values()), len(corpus)),
         "exhaustive": True,
         "exhaustive_part": "all %d bodies with <= %d nodes" % (n_exh, max_nodes),
         "random_size_histogram": {str(k): v for k, v in sorted(sizes.items())},
         "shape_kinds": kinds,
+        "items_without_id": unknown_ids,
         "into_ssa": dict(ssa, rule="per case: `checked` = the block list after into_ssa was compared with the model and checked "
                                    "against the clauses; `skipped` = the driver did not run into_ssa (more than %d `else` branches: "
                                    "memory exponential in the if/else nesting) and only the graph after into_cfg was compared and "
                                    "checked; a run with more than half skipped is reported as degenerate" % lifteng.SSA_MAX_ELSE),
+        "templates_and_functions": {
+            "what": "the real parser, the real desugarer, the production `impl TryLift for &TemplateData / &FunctionData` and "
+                    "into_ssa on every definition of the liftfull engine's programs; each graph (before and after SSA) against "
+                    "every clause of the property, statements named by their metas, the last clause as the list equality of "
+                    "C12_loop_depth_is_nesting; a failure is a violation of C12 with the source as input",
+            "programs": tstage["programs"], "stats": tstage["stats"], "definition_kinds": tstage["kinds"],
+            "definitions_with_feature": tstage["features"], "by_generator": tstage["by_generator"],
+            "failures": len(tfailing),
+        },
+        "hypothesis_desugared_shape": dict(hyp, rule="C12_lift_never_panics assumes desugared_shape of the body; evaluated by the "
+                                                     "extracted decision (LiftFull.is_block && LiftFull.ast_init_flat, "
+                                                     "C12_desugared_shape_decided) on every distinct definition the real parser + "
+                                                     "desugarer produce for the fixed shapes and a sample of the generated programs; "
+                                                     "`parser_shaped` = how many also have the narrower shape the theorem used to assume",
+                                           sources_without_definition=dict(statuses)),
         "samples": [disagreements[0]] if disagreements else [
             {"src": results[len(results) // 3][0]["src"], "impl": results[len(results) // 3][1][:300]},
             {"src": results[-1][0]["src"][:300], "impl": results[-1][1][:300]}],
         "disagreements_model_vs_impl": len(disagreements),
-        "spec_failures": len(failing),
+        "spec_failures": len(failing) + len(tfailing) + len(hyp_bad),
+        "open_statements": [
+            "`after into_ssa` has no theorem of its own: that SSA conversion keeps blocks, edges and loop depths and only "
+            "prepends phi statements is C14's subject (C14_ssa_blocks_* on Model.Ssa); here it is checked on every explored graph",
+            "the theorems speak about Model.Lift (statement skeletons); that the production lifting of templates and functions "
+            "has this block structure is C13_liftfull_skeleton (Model.LiftFull, tied by C13's liftfull stage) - C12's template "
+            "stage checks the clauses on the real graphs directly, it does not rely on it",
+        ],
     })
     ctx.assumptions += [
         "the skeleton abstraction: lifting looks only at the statement kind and the sub-statements (leaf lifting "
-        "`stmt.try_lift` never fails and never touches the block structure) — observed by the correspondence on rendered programs",
+        "`stmt.try_lift` never fails and never touches the block structure) — observed by the correspondence on rendered programs "
+        "and proved for the content-carrying mirror (C13_liftfull_skeleton)",
         "HashSet iteration order in `for i in pred_set`: the model iterates in increasing order; the result of the loop is "
         "characterised by membership only (complete_spec / back_fold in Proofs.LiftInv), the implementation is observed "
         "with its real random hash order",
         "definition_complexity.rs computes (2 + edges) - nodes on usize: C12_complexity_no_underflow proves nodes <= 1 + edges "
         "for every lifted graph (from C12_descending_path); that the pass adds up exactly successors().len() per block is read "
         "off the source, the pass itself is not mirrored",
+        "a leaf of a rendered skeleton is identified by the number literal of its lifted expression; when that expression holds "
+        "no or several literals the harness falls back on the only number literal in the SOURCE TEXT of the node "
+        "(lift.rs span_number); items without id are counted (`items_without_id`)",
     ]
 
 
 def replay(ctx, rep):
+    if rep.get("liftfull_src"):
+        print("source        :", rep["liftfull_src"])
+        n = liftfull_engine.c12_replay(common, rep["liftfull_src"])
+        rows, _ = liftfull_engine.flags_for_sources(common, [("replay", rep["liftfull_src"])])
+        for row in rows:
+            if row["flags"].get("DS") != "1":
+                print("violated      : desugared_shape is not 1 on", row["def"][:160])
+                n += 1
+        return 1 if n else 0
     body = rep.get("body")
     if not body:
         print("replay names a broken obligation, not an input:", rep.get("broken"))
@@ -155,17 +287,9 @@ def replay(ctx, rep):
     print("source        :", case["src"])
     print("implementation:", impl)
     print("model         :", model)
-    bad = []
-    if impl.startswith("cfg ") and " # ssa " in impl:
-        for which, text in zip(("into_cfg", "into_ssa"), impl[4:].split(" # ssa ", 1)):
-            if text == "skipped":
-                continue
-            if text in ("error", "panic"):
-                bad.append(which + " " + text)
-            else:
-                bad += [which + ": " + b for b in lifteng.wellformed_failures(lifteng.parse_blocks(text), case["depth"])]
-    else:
-        bad.append(impl)
+    bad, _ = skeleton_failures(case, impl)
+    if lifteng.split_cfg_line(impl) is None:
+        bad.append({"spec": impl})
     for b in bad[:8]:
-        print("violated      :", b)
+        print("violated      :", b["spec"], "|", b.get("impl", "")[:300])
     return 1 if bad else 0
